@@ -470,7 +470,9 @@ def guard_inventory(repo: Repo, R, noret):
         for lp in [n for n in au.walk_no_nested(fi.node) if isinstance(n, ast.For)]:
             if ast.unparse(lp.iter) in (f"{conns_copy}.keys()", conns_copy, f"list({conns_copy})", f"{conns_copy}.items()") and _sh.precedes(fi.node, io_loop, lp):
                 kvar = ast.unparse(lp.target.elts[0] if isinstance(lp.target, ast.Tuple) else lp.target)
-                ok_extra = flows(f"NoPort({kvar})", lambda b, k, conds: k is not None and ast.unparse(k) == kvar)
+                # (every left-over name: no test on the name decides whether it gets its status)
+                ok_extra = flows(f"NoPort({kvar})", lambda b, k, conds: k is not None and ast.unparse(k) == kvar and not any(
+                    isinstance(x_, ast.Name) and x_.id == kvar for t_, _p in conds for x_ in ast.walk(t_) if f"NoPort({kvar})" not in ast.unparse(t_)))
     R.check(ok_missing, rule, key_of(fi, "missing-connection"), fi.site, f"every io port without a connection yields an Unconnected status that reaches the failing collection `{sink}`: {ok_missing}", why="an instance with a missing port connection is exported")
     R.check(ok_compat, rule, key_of(fi, "each-port-checked"), fi.site, f"every connected io port is passed to check_compatible(port, conn), and its status reaches `{sink}`: {ok_compat}", why="connections are not type/width checked")
     R.check(ok_extra and copy_ok, rule, key_of(fi, "extra-connection"), fi.site,
